@@ -680,7 +680,7 @@ func (opts *rootOpts) processRef(ctx context.Context, s ConfigSync, src, tgt ref
 		if tgtExists && platDigest.String() == manifest.GetDigest(mTgt).String() {
 			tgtMatches = true
 		}
-		if tgtMatches && (s.ForceRecursive == nil || !*s.ForceRecursive) {
+		if tgtMatches && (fastCheck || (!forceRecursive && !referrers && !digestTags)) {
 			opts.log.Debug("Image matches for platform",
 				slog.String("source", src.CommonName()),
 				slog.String("platform", s.Platform),
